@@ -23,18 +23,43 @@ theorem linter_ne_nil {on : List String} {a b : Table} (hon : on ≠ []) (h : Sh
 theorem keysOn_length (t : Table) (on : List String) : (keysOn t on).length = t.nrows := by
   simp [keysOn]
 
-/-- `a * b` fails in the model (`none`) when a shared column name is listed twice -/
-theorem mul_nodup {a b d : Table} (hd : a.mul b = some (.ok d)) : (linter a.cols b.cols).Nodup := by
-  apply Classical.byContradiction
-  intro h
-  simp [Table.mul, join, joinColNames_cols, h] at hd
+/-- the key columns occur once each among the columns of `t` (a python dict cannot hold a key twice;
+with a repeated key column `a * b` takes the `joinDup` branch of the join model, outside these proofs) -/
+def OnNodup (on : List String) (t : Table) : Prop := (t.cols.filter fun c => on.contains c).Nodup
+
+theorem linter_eq_filter_on {on : List String} {a b : Table} (h : Shares on a b) :
+    linter a.cols b.cols = a.cols.filter (fun c => on.contains c) := by
+  simp only [linter]
+  apply List.filter_congr
+  intro c hc
+  by_cases hb : c ∈ b.cols
+  · have : c ∈ on := (h c).1 ⟨hc, hb⟩
+    simp [hb, this]
+  · have : c ∉ on := fun ho => hb ((h c).2 ho).2
+    simp [hb, this]
+
+theorem mul_nodup {on : List String} {a b : Table} (hsh : Shares on a b) (hnd : OnNodup on a) :
+    (linter a.cols b.cols).Nodup := by
+  rw [linter_eq_filter_on hsh]; exact hnd
+
+theorem concat2_onNodup (on : List String) (D0 X : Table) (h : OnNodup on D0)
+    (hon : ∀ c ∈ on, c ∈ D0.cols) : OnNodup on (D0.concat2 X) := by
+  simp only [OnNodup, concat2_cols, List.filter_append]
+  have : (X.cols.filter fun k => !D0.cols.contains k).filter (fun c => on.contains c) = [] := by
+    simp only [List.filter_eq_nil_iff, List.mem_filter]
+    rintro c ⟨_, h2⟩ ho
+    have : c ∈ D0.cols := hon c (by simpa using ho)
+    simp [this] at h2
+  rw [this, List.append_nil]
+  exact h
 
 /-- **`a * b` as a step without defaults** -/
 theorem mul_sem (on : List String) (hon : on ≠ []) (a b d : Table) (hsh : Shares on a b)
-    (hd : a.mul b = some (.ok d)) :
-    JStep on a.cols b.cols a.R b.R [] [] d.R ∧ d.WF ∧ (∀ c, c ∈ d.cols ↔ c ∈ a.cols ∨ c ∈ b.cols) := by
+    (hnd : OnNodup on a) (hd : a.mul b = some (.ok d)) :
+    JStep on a.cols b.cols a.R b.R [] [] d.R ∧ d.WF ∧ (∀ c, c ∈ d.cols ↔ c ∈ a.cols ∨ c ∈ b.cols) ∧
+      OnNodup on d := by
   have hon' := linter_ne_nil hon hsh
-  have hnd' := mul_nodup hd
+  have hnd' := mul_nodup hsh hnd
   have hmem := hsh.linter
   obtain ⟨kp, hn, hrect, hkey, hpairs, hkeys, hva, hvb⟩ :=
     mul_rows_full a b d (linter a.cols b.cols) hon' hnd' rfl hd
@@ -49,8 +74,22 @@ theorem mul_sem (on : List String) (hon : on ≠ []) (a b d : Table) (hsh : Shar
       exact List.eq_nil_of_length_eq_zero (by omega)
     exact hon' this
   have hlen : (kp.map (·.2)).length = kp.length := by simp
+  have hond : OnNodup on d := by
+    simp only [OnNodup, hcols, List.filter_append]
+    have e1 : (linter a.cols b.cols).filter (fun c => on.contains c) = linter a.cols b.cols := by
+      apply List.filter_eq_self.2
+      intro c hc
+      simpa using (hmem c).1 hc
+    have e2 : ∀ x : Table,
+        (lminus x.cols (linter a.cols b.cols)).filter (fun c => on.contains c) = [] := by
+      intro x
+      simp only [List.filter_eq_nil_iff]
+      intro c hc ho
+      exact (mem_lminus.1 hc).2 ((hmem c).2 (by simpa using ho))
+    rw [e1, e2 a, e2 b]
+    simpa using hnd'
   refine ⟨⟨kp.map (·.2), [], [], ?_, ?_, List.nodup_nil, by simp, List.nodup_nil, by simp, ?_, ?_,
-    by simp, by simp⟩, ⟨hne, hn ▸ hrect⟩, ?_⟩
+    by simp, by simp⟩, ⟨hne, hn ▸ hrect⟩, ?_, hond⟩
   · rw [hpairs]; exact joinPairs_nodup _ _
   · intro i j
     rw [hpairs, mem_joinPairs, keysOn_length, keysOn_length]
@@ -177,12 +216,14 @@ theorem stage_sem (on : List String) (hon : on ≠ []) (D0 src other D1 : Table)
       D1.WF ∧ D1.nrows = D0.nrows + ids.length ∧
       (∀ p, p < D0.nrows → D1.rowF p = D0.rowF p) ∧
       (∀ q (h : q < ids.length), D1.rowF (D0.nrows + q) = (src.rowF ids[q]).sets dd) ∧
-      (∀ c, c ∈ D1.cols ↔ c ∈ D0.cols ∨ (dd ≠ [] ∧ (c ∈ src.cols ∨ ∃ kv ∈ dd, kv.1 = c))) := by
+      (∀ c, c ∈ D1.cols ↔ c ∈ D0.cols ∨ (dd ≠ [] ∧ (c ∈ src.cols ∨ ∃ kv ∈ dd, kv.1 = c))) ∧
+      (OnNodup on D0 → (∀ c ∈ on, c ∈ D0.cols) → OnNodup on D1) := by
   by_cases hdd : dd = []
   · subst hdd
     simp only [List.isEmpty_nil, if_true, Except.ok.injEq] at hr
     subst hr
-    exact ⟨[], List.nodup_nil, by simp, h0, by simp, fun _ _ => rfl, by simp, by simp⟩
+    exact ⟨[], List.nodup_nil, by simp, h0, by simp, fun _ _ => rfl, by simp, by simp,
+      fun h _ => h⟩
   · have hemp : dd.isEmpty = false := by cases dd <;> simp_all
     simp only [hemp, Bool.false_eq_true, if_false] at hr
     cases hx : src.div other with
@@ -192,18 +233,18 @@ theorem stage_sem (on : List String) (hon : on ≠ []) (D0 src other D1 : Table)
       obtain ⟨ids, rfl, hnd, hm⟩ := div_sem on hon src other extra hsh hx
       obtain ⟨e1, e2, e3, e4, e5⟩ := ext_sem D0 src h0 hs ids dd
       subst hr
-      refine ⟨ids, hnd, ?_, e1, e2, e3, e4, ?_⟩
+      refine ⟨ids, hnd, ?_, e1, e2, e3, e4, ?_, fun h1 h2 => concat2_onNodup on D0 _ h1 h2⟩
       · intro j; rw [hm j]; simp [hdd]
       · intro c; rw [e5 c]; simp [hdd]
 
 /-- **`_join_dictable_with_defaults` of two tables is a `JStep`** -/
 theorem joinDef_sem (on : List String) (hon : on ≠ []) (a b : Table)
     (da db : List (String × Cell)) (x : TblDef) (ha : a.WF) (hb : b.WF) (hsh : Shares on a b)
-    (hda : ∀ kv ∈ da, kv.1 ∈ a.cols) (hdb : ∀ kv ∈ db, kv.1 ∈ b.cols)
+    (hda : ∀ kv ∈ da, kv.1 ∈ a.cols) (hdb : ∀ kv ∈ db, kv.1 ∈ b.cols) (hnd : OnNodup on a)
     (h : joinDef (some a, da) (some b, db) = some (.ok x)) :
     ∃ d : Table, x = (some d, updDefaults da db) ∧
       JStep on a.cols b.cols a.R b.R da db d.R ∧ d.WF ∧
-      (∀ c, c ∈ d.cols ↔ c ∈ a.cols ∨ c ∈ b.cols) := by
+      (∀ c, c ∈ d.cols ↔ c ∈ a.cols ∨ c ∈ b.cols) ∧ OnNodup on d := by
   unfold joinDef at h
   dsimp only at h
   cases hm : a.mul b with
@@ -214,8 +255,9 @@ theorem joinDef_sem (on : List String) (hon : on ≠ []) (a b : Table)
     | ok d0 =>
       rw [hm] at h
       dsimp only at h
-      obtain ⟨⟨kp, i1, i2, hkn, hkm, _, x2, _, x4, hn, hM, _, _⟩, hw0, hc0⟩ :=
-        mul_sem on hon a b d0 hsh hm
+      obtain ⟨⟨kp, i1, i2, hkn, hkm, _, x2, _, x4, hn, hM, _, _⟩, hw0, hc0, hn0⟩ :=
+        mul_sem on hon a b d0 hsh hnd hm
+      have hon0 : ∀ c ∈ on, c ∈ d0.cols := fun c hc => (hc0 c).2 (.inl ((hsh c).2 hc).1)
       -- first stage: the rows of `b` that `a` lacks
       cases hr1 : (if da.isEmpty then (.ok d0 : Res Table)
           else (b.div a).map fun extra => d0.concat2 (extra.setConsts da)) with
@@ -223,7 +265,7 @@ theorem joinDef_sem (on : List String) (hon : on ≠ []) (a b : Table)
       | ok d1 =>
         rw [hr1] at h
         dsimp only at h
-        obtain ⟨ids1, h1n, h1m, hw1, hn1, hr1a, hr1b, hc1⟩ :=
+        obtain ⟨ids1, h1n, h1m, hw1, hn1, hr1a, hr1b, hc1, ho1⟩ :=
           stage_sem on hon d0 b a d1 da hw0 hb.1 hsh.symm hr1
         cases hr2 : (if db.isEmpty then (.ok d1 : Res Table)
             else (a.div b).map fun extra => d1.concat2 (extra.setConsts db)) with
@@ -231,14 +273,16 @@ theorem joinDef_sem (on : List String) (hon : on ≠ []) (a b : Table)
         | ok d2 =>
           rw [hr2] at h
           simp only [Option.some.injEq, Except.ok.injEq] at h
-          obtain ⟨ids2, h2n, h2m, hw2, hn2, hr2a, hr2b, hc2⟩ :=
+          obtain ⟨ids2, h2n, h2m, hw2, hn2, hr2a, hr2b, hc2, ho2⟩ :=
             stage_sem on hon d1 a b d2 db hw1 ha.1 hsh hr2
           have hlen : d0.nrows = kp.length := by
             have : i1 = [] ∧ i2 = [] := by
               exact ⟨List.eq_nil_iff_forall_not_mem.2 fun j hj => ((x2 j).1 hj).1 rfl,
                 List.eq_nil_iff_forall_not_mem.2 fun j hj => ((x4 j).1 hj).1 rfl⟩
             simpa [this.1, this.2] using hn
-          refine ⟨d2, h.symm, ⟨kp, ids1, ids2, hkn, hkm, h1n, h1m, h2n, h2m, ?_, ?_, ?_, ?_⟩, hw2, ?_⟩
+          have hon1 : ∀ c ∈ on, c ∈ d1.cols := fun c hc => (hc1 c).2 (.inl (hon0 c hc))
+          refine ⟨d2, h.symm, ⟨kp, ids1, ids2, hkn, hkm, h1n, h1m, h2n, h2m, ?_, ?_, ?_, ?_⟩, hw2, ?_,
+            ho2 (ho1 hn0 hon0) hon1⟩
           · show d2.nrows = _
             rw [hn2, hn1, hlen]
           · intro p hp
